@@ -357,7 +357,8 @@ func validateConstraints(
 			ok := true
 			switch {
 			case pv.Name == manifests.Kubernetes:
-				version, err = semver.NewVersion(env.Kubernetes.Version)
+				// The Kubernetes version is reported with a leading "v" (e.g. v1.29.5).
+				version, err = semver.NewVersion(strings.TrimPrefix(env.Kubernetes.Version, "v"))
 			case pv.Name == manifests.OpenShift && env.OpenShift != nil:
 				version, err = semver.NewVersion(env.OpenShift.Version)
 			default:
